@@ -1,5 +1,6 @@
 import WM.Lemmas.IndexCount
 import WM.Lemmas.IndexUnique
+import WM.Lemmas.IndexPartition
 /-!
 # C07 — deletes, updates and cancel have exact, durable semantics
 
@@ -18,8 +19,8 @@ no commit raises, the index stays well-formed, and it holds exactly the document
 dictionary (same schema, same visible documents as multisets; in particular deleted documents are
 in no read function's output) and `doc_count()` is their number.
 Side conditions (`HistOK`): each `update_document` is unambiguous (`Unambiguous`: at most one live
-committed document per unique term — see `update_all_full`), added field names are fresh, no
-un-delete. -/
+committed document per unique term — see `update_all_full`), added field names are fresh.
+Un-delete (`delete_document(n, delete=False)`) is covered: it restores the document at `n`. -/
 theorem refines_dict (t : Toc) (sp : State) (hwf : t.WF) (h : Rel t sp)
     (hist : List (List Op × Ending × SEnd)) (hok : HistOK t sp hist) :
     ∃ t' sp', lockstep t sp hist = .ok (t', sp') ∧
@@ -82,7 +83,21 @@ theorem delete_document_exact (w : Writer) (n : Nat) :
   obtain ⟨w', h1, _, l1⟩ := Writer.deleteDocument_ok w n h
   exact ⟨w', h1, l1⟩
 
-/-- **cancel is the identity** — whatever the cancelled writer did (deletions included). -/
+/-- **un-delete.** For a valid number `delete_document(n, delete=False)` succeeds, touches only the
+deleted sets, changes the liveness of no other document and makes the document at `n` live again;
+when it was not deleted nothing changes at all. -/
+theorem undelete (w : Writer) (hwf : w.WF) (n : Nat) (h : n < docCountAllSegs w.segs) :
+    ∃ w', w.deleteDocument n false = .ok w' ∧ Frame w w' ∧
+      (liveGlobal w'.segs 0).filter (fun p => p.2 != n) = (liveGlobal w.segs 0).filter (fun p => p.2 != n) ∧
+      (∀ d, docAt w.segs n = some d → (d, n) ∈ liveGlobal w'.segs 0) ∧
+      (isDeletedG w.segs n = false → w' = w) :=
+  Writer.undelete_spec w hwf n h
+
+/-- **cancel is the identity** — whatever the cancelled writer did (deletions included).
+*Definitional*: the model's `Toc.session … .cancel` returns the TOC it started from by definition
+(a writer's changes live in the `Writer` value, which a cancel discards), so this theorem only
+records that modelling decision; that the real `cancel()` leaves TOC, segments and deleted sets
+untouched is what the check compares (dump before/after every cancelled session). -/
 theorem cancel_identity (t : Toc) (ops : List Op) : t.session ops .cancel = .ok t := rfl
 
 /-- **unique_invariant.** An index maintained under the key discipline (`HistDisc`: keyed documents
@@ -91,13 +106,37 @@ included —, `add_document` only for documents without key terms; `K` says whic
 pairs are keys, every written document carries exactly its own unique terms as key terms) holds,
 after every commit, at most one live document per key; every `update_document` of such a history
 is unambiguous, so the history also satisfies `refines_dict` (`HistOK`) and the index holds exactly
-the dictionary's documents. -/
+the dictionary's documents.  Scope: `HistDisc` admits the *plain* calls only (add, update, delete
+by number / by query); a history with an un-delete (can resurrect a second document of a key) or a
+schema change is outside this theorem.  The conclusion is "at most one live document per key" —
+a key whose document was deleted has none. -/
 theorem unique_invariant (K : Nat → Nat → Bool) (t : Toc) (sp : State) (hwf : t.WF) (h : Rel t sp)
     (hinv : KeyInv K sp.docs) (hist : List (List Op × Ending × SEnd)) (hd : HistDisc K t sp hist) :
     HistOK t sp hist ∧ ∃ t' sp', lockstep t sp hist = .ok (t', sp') ∧ t'.WF ∧ t'.content.Perm sp'.docs ∧
       KeyInv K t'.content := by
-  obtain ⟨hok, t', sp', h1, wf', rel', inv'⟩ := history_unique K hist t sp hwf h hinv hd
+  obtain ⟨hok, t', sp', h1, wf', rel', inv', _⟩ := history_unique K hist t sp hwf h hinv hd
   exact ⟨hok, t', sp', h1, wf', rel'.docs, inv'.perm rel'.docs.symm⟩
+
+/-- **unique_keys.** The instance for the schema's own unique fields (`K f _ := sc.isUnique f`):
+an index whose content satisfies the specification's `UniqueKeys` and which is maintained under the
+key discipline satisfies `UniqueKeys` (for its unchanged schema) after every commit. -/
+theorem unique_keys (t : Toc) (sp : State) (hwf : t.WF) (h : Rel t sp) (huk : UniqueKeys sp.schema sp.docs)
+    (hist : List (List Op × Ending × SEnd)) (hd : HistDisc (fun f _ => sp.schema.isUnique f) t sp hist) :
+    ∃ t' sp', lockstep t sp hist = .ok (t', sp') ∧ t'.WF ∧ t'.schema = t.schema ∧ t'.content.Perm sp'.docs ∧
+      UniqueKeys t'.schema t'.content := by
+  obtain ⟨_, t', sp', h1, wf', rel', inv', hs⟩ := history_unique _ hist t sp hwf h huk hd
+  have hsc : t'.schema = sp.schema := by rw [← rel'.schema, hs]
+  refine ⟨t', sp', h1, wf', by rw [hsc, h.schema], rel'.docs, ?_⟩
+  rw [hsc]
+  exact inv'.perm rel'.docs.symm
+
+/-- **postings_exact.** The posting read path of a committed index: `reader.postings(f, t)` with
+the deleted-documents filter (`Toc.postingDocs`, what `Term(f, t)` searches iterate) yields exactly
+the global numbers of the live documents whose visible data carry the term — never a deleted
+document, never a document of a removed field, and every live carrier. -/
+theorem postings_exact (t : Toc) (hwf : t.WF) (f tm n : Nat) :
+    n ∈ t.postingDocs f tm ↔ ∃ q ∈ liveGlobal t.segs 0, q.2 = n ∧ (restrict t.schema q.1).hasTerm f tm = true :=
+  postingDocs_exact t hwf f tm n
 
 /-- The full statement about `update_document` ("deletes *every* committed document with the
     same unique value"), i.e. `refines_dict_step` without the `Unambiguous` side condition. -/
@@ -180,7 +219,7 @@ theorem Witness.keyedT_wf (key st t : Nat) : DocKeyWF (fun f _ => f == 1) Witnes
 /-- non-vacuity of `unique_invariant`: one writer on the empty index updates key 7, adds a keyless
     document, deletes by term and updates key 8 — this satisfies the discipline for
     `K f t := f == 1` (field 1 is the unique field). -/
-example : HistDisc (fun f _ => f == 1) { schema := Witness.sc, segs := [], gen := 0 } { schema := Witness.sc, docs := [] }
+theorem Witness.hist_disc : HistDisc (fun f _ => f == 1) { schema := Witness.sc, segs := [], gen := 0 } { schema := Witness.sc, docs := [] }
     [([.update (Witness.keyedT 0 10 7), .add (Witness.plain 5 3), .delBy (.term 0 4), .update (Witness.keyedT 1 11 8)],
       .commit planMergeSmall, .commit)] := by
   refine ⟨EndRel.commit _ planMergeSmall_ok, by decide, ?_, ?_, fun _ _ => trivial⟩
@@ -203,5 +242,33 @@ example : HistDisc (fun f _ => f == 1) { schema := Witness.sc, segs := [], gen :
       simp [uniqTerms, Witness.keyedT, Witness.sc, Schema.isUnique] at hft ⊢
       subst hft
       simp
+
+theorem Witness.isUnique_eq : (fun (f _ : Nat) => Witness.sc.isUnique f) = (fun f _ => f == 1) := by
+  funext f _
+  by_cases h : f = 1
+  · subst h; rfl
+  · simp [Witness.sc, Schema.isUnique, h]
+
+/-- non-vacuity of `unique_keys`: the same history satisfies the discipline for the schema's own
+    unique fields, and the empty content satisfies `UniqueKeys` -/
+example : UniqueKeys Witness.sc [] ∧
+    HistDisc (fun f _ => ({ schema := Witness.sc, docs := [] } : State).schema.isUnique f)
+      { schema := Witness.sc, segs := [], gen := 0 } { schema := Witness.sc, docs := [] }
+      [([.update (Witness.keyedT 0 10 7), .add (Witness.plain 5 3), .delBy (.term 0 4), .update (Witness.keyedT 1 11 8)],
+        .commit planMergeSmall, .commit)] := by
+  refine ⟨fun _ _ _ => Nat.zero_le _, ?_⟩
+  show HistDisc (fun f _ => Witness.sc.isUnique f) _ _ _
+  rw [Witness.isUnique_eq]
+  exact Witness.hist_disc
+
+/-- `postings_exact` on the witness index after deleting document 0: the term's postings yield
+    document 1 only -/
+example : (({ schema := Witness.sc, segs := [Witness.seg.deleteDocument 0 true], gen := 2 } : Toc).postingDocs 1 7) = [1] := by
+  decide
+
+/-- non-vacuity of `undelete`: deleting document 0 of the witness writer and un-deleting it gives
+    the two live documents back -/
+example : ((Witness.w.deleteDocument 0 true).bind (fun w => w.deleteDocument 0 false)).toOption.map
+    (fun w => (liveGlobal w.segs 0).map (·.2)) = some [0, 1] := by decide
 
 end WM.C07
